@@ -88,6 +88,7 @@ pub fn replay_one(ctx: &mut Ctx, path: &std::path::Path) {
         "obs" => go!(ObsCase, |c: &ObsCase| engine_obs::run(c, prop)),
         "async" => go!(crate::engine_async::AsyncCase, |c: &crate::engine_async::AsyncCase| crate::engine_async::run(c, prop)),
         "thr" => go!(ThrCase, |c: &ThrCase| engine_thr::run_repeated(c, prop, 2000)),
+        "zst" => go!(crate::engine_zst::ZCase, |c: &crate::engine_zst::ZCase| crate::engine_zst::run(c, prop)),
         e => ctx.inconclusive.push(format!("unknown engine {e:?} in {}", path.display())),
     }
 }
@@ -435,6 +436,12 @@ fn obs_check(ctx: &mut Ctx) {
         ctx.known_findings("async", &run);
         let n = ctx.pick(150_000, 2_000_000);
         ctx.random("async-guards-held-across-calls", "async", &|| crate::engine_async::case(), &run, n);
+    }
+    if matches!(prop, Prop::C01 | Prop::C02 | Prop::C03) {
+        // observables of a zero-sized value type: nothing but notifications to observe
+        let run = move |c: &crate::engine_zst::ZCase| crate::engine_zst::run(c, prop);
+        let n = ctx.pick(60_000, 1_000_000);
+        ctx.random("zero-sized-values", "zst", &|| crate::engine_zst::case(), &run, n);
     }
     if matches!(prop, Prop::C01 | Prop::C02 | Prop::C03) {
         // the async-lock flavour is an Observable / SharedObservable too: the value, wake-up and
